@@ -11,7 +11,7 @@
 From Coq Require Import ZArith List Bool Sorting.Sorted.
 From NV Require Import Common.Outcome Common.MachineInt Seq.Index Seq.IndexSpec Seq.Index_proofs
   Seq.Streams Seq.StreamsSpec Seq.Streams_proofs Seq.Streams_counter_proofs Seq.Streams_comb_proofs
-  Seq.Streams_combu_proofs Seq.Streams_obs_proofs Seq.Streams_adapt_proofs.
+  Seq.Streams_combu_proofs Seq.Streams_obs_proofs Seq.Streams_adapt_proofs Seq.Streams_ext_proofs.
 Import ListNotations.
 Open Scope Z_scope.
 
@@ -270,6 +270,98 @@ Theorem C11_iterate_prefix : forall (A : Type) (f : A -> A) n x,
 Proof. exact @iterate_prefix. Qed.
 Print Assumptions C11_iterate_prefix.
 
+(* ================================================================ extensions *)
+(* lazy_zip of ANY non-empty list of streams lists the n-ary zip of their lists ... *)
+Theorem C11_lazy_zip_nary : forall (St E : Type) (step : St -> option E * St) fuel ss ls,
+  Forall2 (yields step) ss ls -> ss <> [] -> (length (hd [] ls) < fuel)%nat ->
+  yields (zip_step step) (AOk ss) (zipn fuel ls).
+Proof. exact @zipn_yields. Qed.
+Print Assumptions C11_lazy_zip_nary.
+
+(* ... where the n-ary zip is as long as the shortest list and its i-th element is the list of
+   the i-th elements *)
+Theorem C11_zipn_is_the_zip : forall (E : Type) (d : E) fuel (ls : list (list E)),
+  ls <> [] -> (length (hd [] ls) < fuel)%nat ->
+  (forall l, In l ls -> (length (zipn fuel ls) <= length l)%nat) /\
+  (exists l, In l ls /\ length (zipn fuel ls) = length l) /\
+  (forall i, (i < length (zipn fuel ls))%nat -> nth i (zipn fuel ls) [] = map (fun l => nth i l d) ls).
+Proof. exact @zipn_spec. Qed.
+Print Assumptions C11_zipn_is_the_zip.
+
+(* lazy_zip with a function lists the function applied to each tuple of the n-ary zip *)
+Theorem C11_lazy_zip_with_function : forall (St E : Type) (step : St -> option E * St) (F : Type)
+    (g : list E -> F) fuel ss ls,
+  Forall2 (yields step) ss ls -> ss <> [] -> (length (hd [] ls) < fuel)%nat ->
+  yields (zipf_step step g) (AOk ss) (map g (zipn fuel ls)).
+Proof. exact @zipf_yields. Qed.
+Print Assumptions C11_lazy_zip_with_function.
+
+(* Repeat::pythonic_slice (cap = the largest width try_reserve_exact grants): for bounds counted
+   from the start it is the slice of the prefix x, x, x, ...; every bound combination; no panic *)
+Theorem C11_repeat_slice_prefix : forall (A : Type) (cap : Z) (x : A) lo hi n,
+  0 <= lo -> 0 <= hi -> Z.max (hi - lo) 0 <= cap -> (Z.to_nat hi <= n)%nat ->
+  repeat_slice cap x (Some lo) (Some hi) =
+  Ok (RList (firstn (Z.to_nat (hi - lo)) (skipn (Z.to_nat lo) (unfold repeat_step n x)))).
+Proof. exact @repeat_slice_prefix. Qed.
+Print Assumptions C11_repeat_slice_prefix.
+
+Theorem C11_repeat_slice_cases : forall (A : Type) (cap : Z) (x : A) lo hi,
+  repeat_slice cap x lo hi =
+  match lo, hi with
+  | Some l, Some h =>
+    if (l <? 0) && (0 <=? h) then Ok (RList [])
+    else if (0 <=? l) && (h <? 0) then Ok RSelf
+    else if Z.max (h - l) 0 <=? cap then Ok (RList (repeat x (Z.to_nat (Z.max (h - l) 0)))) else Err EValue
+  | Some l, None =>
+    if l <? 0 then (if Z.max (- l) 0 <=? cap then Ok (RList (repeat x (Z.to_nat (- l)))) else Err EValue)
+    else Ok RSelf
+  | None, Some h =>
+    if h <? 0 then Ok RSelf
+    else if Z.max h 0 <=? cap then Ok (RList (repeat x (Z.to_nat h))) else Err EValue
+  | None, None => Ok RSelf
+  end.
+Proof. exact @repeat_slice_cases. Qed.
+Print Assumptions C11_repeat_slice_cases.
+
+Theorem C11_repeat_slice_no_panic : forall (A : Type) (cap : Z) (x : A) lo hi,
+  repeat_slice cap x lo hi <> Panic.
+Proof. exact @repeat_slice_no_panic. Qed.
+Print Assumptions C11_repeat_slice_no_panic.
+
+(* lazy_map with a callback that may raise: the items are the results up to and including the
+   first failure; list(s) is the mapped list or that first error; with no failure it is lazy_map *)
+Theorem C11_lazy_map_erroring_items : forall (St E F : Type) (step : St -> option E * St)
+    (f : E -> outcome F) s l,
+  yields step s l -> yields (emap_step step f) (AOk s) (upto_err f l).
+Proof. exact @emap_yields. Qed.
+Print Assumptions C11_lazy_map_erroring_items.
+
+Theorem C11_lazy_map_erroring_list : forall (E F : Type) (f : E -> outcome F) l,
+  collect (upto_err f l) = mapM f l.
+Proof. exact @emap_collect. Qed.
+Print Assumptions C11_lazy_map_erroring_list.
+
+Theorem C11_lazy_map_no_error : forall (E F : Type) (f : E -> outcome F) l,
+  (forall e, In e l -> exists y, f e = Ok y) ->
+  exists ys, mapM f l = Ok ys /\ upto_err f l = map Ok ys /\ length ys = length l.
+Proof. exact @emap_total. Qed.
+Print Assumptions C11_lazy_map_no_error.
+
+(* lazy_filter with a predicate that may raise: one next() returns the first item of
+   efilter_items and leaves a state that yields the rest (an error is the last item) *)
+Theorem C11_lazy_filter_erroring_next : forall (St E : Type) (step : St -> option E * St)
+    (p : E -> outcome bool) s l,
+  yields step s l -> p_clean p l -> forall fuel, (length l < fuel)%nat ->
+  match efilter_items p l with
+  | [] => efilter_loop step p fuel s = Ok (None, AStopped)
+  | Err c :: _ => efilter_items p l = [Err c] /\ efilter_loop step p fuel s = Ok (Some (Err c), AStopped)
+  | Ok e :: rest => exists s' l', efilter_loop step p fuel s = Ok (Some (Ok e), AOk s') /\
+                      yields step s' l' /\ efilter_items p l' = rest /\ (length l' < length l)%nat /\ p_clean p l'
+  | _ => False
+  end.
+Proof. exact @efilter_next. Qed.
+Print Assumptions C11_lazy_filter_erroring_next.
+
 (* non-vacuity: the hypotheses are met by ordinary streams and the functions compute *)
 Example C11_nonvacuous :
   yields range_step (til 10 0 (-3)) [10; 7; 4; 1] /\ range_len (til 10 0 (-3)) = Some 4 /\
@@ -281,6 +373,10 @@ Example C11_nonvacuous :
   sub_len (snd (sub_step (sub_init 3))) = Ok (Some 7) /\
   cart_len 3 (snd (cart_step 3 (cart_init 3 2))) = Ok (Some 8) /\ cart_inv 3 (cart_init 3 2) /\
   unfold (cart_step 0) 5 (cart_init 0 0) = [[]] /\ unfold perm_step 5 (perm_init 0) = [[]] /\
+  zipn 9 [[1; 2; 3]; [4; 5]; [6; 7; 8]] = [[1; 4; 6]; [2; 5; 7]] /\
+  repeat_slice 1000 7 (Some (-5)) (Some (-2)) = Ok (RList [7; 7; 7]) /\
+  repeat_slice 1000 7 (Some 2) None = Ok RSelf /\ repeat_slice 1000 7 None (Some (2 ^ 62)) = Err EValue /\
+  upto_err (fun x => if x =? 3 then Err EValue else Ok (2 * x + 1)) [1; 2; 3; 4] = [Ok 3; Ok 5; Err EValue] /\
   handle_run wvec_step 2 [(stream_of_list [7; 8; 9], 2%nat)] 0 =
     Some ([Some 7; Some 8], [(stream_of_list [7; 8; 9], 1%nat); (([7; 8; 9], 2%nat), 1%nat)], 1%nat).
 Proof.
